@@ -110,9 +110,14 @@ func Walk(insts map[string]Inst, key uint32, rf int, zoneAware bool, op Op) []st
 // Quorum decides a lookup from the walked set: the healthy members, whether it
 // fails, and the tolerated errors.
 func Quorum(insts map[string]Inst, walked []string, rf int, op Op, now int64, timeoutSec int64) (healthy []string, maxErrors int, fails bool) {
+	return QuorumAt(insts, walked, rf, op, now*1000, timeoutSec*1000)
+}
+
+// QuorumAt is Quorum with the query instant and the timeout in milliseconds (heartbeats are whole seconds).
+func QuorumAt(insts map[string]Inst, walked []string, rf int, op Op, nowMs int64, timeoutMs int64) (healthy []string, maxErrors int, fails bool) {
 	for _, id := range walked {
 		in := insts[id]
-		if op.Healthy[in.State] && now-in.Heartbeat <= timeoutSec {
+		if op.Healthy[in.State] && nowMs-in.Heartbeat*1000 <= timeoutMs {
 			healthy = append(healthy, id)
 		}
 	}
